@@ -68,7 +68,7 @@ impl Check for C20 {
             if r.chance(1, 4) {
                 // a resize (half of them to the current size) right before the item
                 let (c0, r0) = evs.iter().rev().find_map(|e| if let Event::Resize { cols, rows, .. } = e { Some((*cols, *rows)) } else { None }).unwrap_or((cfg.cols, cfg.rows));
-                let (c1, r1) = if r.chance(1, 2) { (c0, r0) } else { gen_resize(r, c0, r0, mc, mr) };
+                let (c1, r1) = if r.chance(1, 2) || c0 * r0 > 20_000 { (c0, r0) } else { gen_resize(r, c0, r0, mc, mr) };
                 evs.push(Event::Resize { cols: c1, rows: r1, drain: crate::trace::Drain::All });
                 st.bump("resize_right_before_item");
             }
